@@ -3,6 +3,7 @@ package main
 import (
 	"fmt"
 	"math"
+	"runtime"
 	"strconv"
 	"sync"
 	"sync/atomic"
@@ -153,6 +154,70 @@ func c17(args []string) error {
 			}
 		}
 		tr.Emit(map[string]any{"ev": "fresh.read", "keys": K, "g": FG, "expected": K * FG, "got": got, "short": short})
+	}
+
+	// ---- gauges under free order: equal numbers of increments and decrements from independent goroutines, the
+	// decrementing ones released first.  Whatever the interleaving (also a decrement that overtakes "its" increment, which
+	// makes the unsigned gauge wrap for a moment), the gauge must be back at its starting value afterwards.
+	{
+		incs := []func(){stats.PreprocessorRoutinesIncr, stats.ArchiverRoutinesIncr, stats.PostprocessorRoutinesIncr}
+		decs := []func(){stats.PreprocessorRoutinesDecr, stats.ArchiverRoutinesDecr, stats.PostprocessorRoutinesDecr}
+		gets := []func() uint64{stats.PreprocessorRoutinesGet, stats.ArchiverRoutinesGet, stats.PostprocessorRoutinesGet}
+		const FG = 8
+		bad, rounds := 0, 60*R
+		var firstDelta int64
+		for r := 0; r < rounds; r++ {
+			j := r % 3
+			base := gets[j]()
+			// bring the gauge to zero first (only then can a decrement meet an empty gauge), restore it afterwards
+			for i := uint64(0); i < base; i++ {
+				decs[j]()
+			}
+			var ready, start atomic.Int32
+			var wg sync.WaitGroup
+			for g := 0; g < 2*FG; g++ {
+				wg.Add(1)
+				go func(g int) {
+					defer wg.Done()
+					ready.Add(1)
+					if g < FG {
+						for start.Load() == 0 {
+						}
+						decs[j]()
+					} else {
+						for start.Load() < 2 {
+						}
+						incs[j]()
+					}
+				}(g)
+			}
+			for i := 0; ready.Load() < int32(2*FG) && i < 2000; i++ {
+				time.Sleep(50 * time.Microsecond)
+			}
+			start.Store(1)
+			if r%2 == 0 {
+				runtime.Gosched()
+			}
+			start.Store(2)
+			wg.Wait()
+			if d := int64(gets[j]()); d != 0 {
+				bad++
+				if firstDelta == 0 {
+					firstDelta = d
+				}
+				// put the gauge back to zero so that the next rounds and phases start from a known value
+				for gets[j]() != 0 {
+					decs[j]()
+				}
+			}
+			for i := uint64(0); i < base; i++ {
+				incs[j]()
+			}
+		}
+		if firstDelta > 1000000 || firstDelta < -1000000 {
+			firstDelta = 1000000
+		}
+		tr.Emit(map[string]any{"ev": "gauge.free", "rounds": rounds, "g": FG, "bad": bad, "delta": firstDelta})
 	}
 
 	// ---- means racing with resets
